@@ -398,6 +398,23 @@ func (mp *MarkLigPos) Sanitize() error {
 	return nil
 }
 
+func (mp *MarkMarkPos) Sanitize() error {
+	if mp.Mark1Coverage == nil || mp.Mark2Coverage == nil {
+		return errMissingCoverage
+	}
+	if exp, got := mp.Mark1Coverage.Len(), len(mp.Mark1Array.MarkRecords); exp != got {
+		return fmt.Errorf("GPOS: invalid MarkMarkPos marks count (%d != %d)", exp, got)
+	}
+	if exp, got := mp.Mark2Coverage.Len(), len(mp.Mark2Array.mark2Records); exp != got {
+		return fmt.Errorf("GPOS: invalid MarkMarkPos marks count (%d != %d)", exp, got)
+	}
+	if err := mp.Mark2Array.Anchors().sanitizeOffsets(); err != nil {
+		return err
+	}
+
+	return nil
+}
+
 func (cs *ContextualPos) Sanitize(lookupCount uint16) error {
 	if f1, isFormat1 := cs.Data.(ContextualPos1); isFormat1 {
 		return (*SequenceContextFormat1)(&f1).sanitize(lookupCount)
